@@ -25,4 +25,44 @@ def Shape.node : Shape → Int
   | .sphere n => n
   | .frustum a _ => a
 
+/-- call a translated function that tracks its exceptions from one that does: its exception propagates (`none` = an untracked failure) -/
+@[inline] def bindX {α V R : Type} (e : Option (Except Exc α)) (v : V) (k : α → Res V (Except Exc R)) : Res V (Except Exc R) :=
+  match e with
+  | none => .err
+  | some (.error x) => .ret v (.error x)
+  | some (.ok a) => k a
+
+/-- a volumetric object of `utils/volumetric_object.py` as an immutable term: the sphere of a node, the frustum between a node and a child, a
+composite of class `cls` (its class name) with the operands `obj1`, `obj2` -/
+inductive VObj where
+  | sphere (n : Int)
+  | frustum (a b : Int)
+  | node (cls : String) (obj1 obj2 : VObj)
+deriving Repr, DecidableEq, Inhabited
+
+/-- the class of an object -/
+def VObj.cls : VObj → String
+  | .sphere _ => "VolSphere"
+  | .frustum _ _ => "VolFrustumCone"
+  | .node c _ _ => c
+
+/-- the operands of a composite (`none` = AttributeError) -/
+def VObj.obj1 : VObj → Option VObj
+  | .node _ a _ => some a
+  | _ => none
+def VObj.obj2 : VObj → Option VObj
+  | .node _ _ b => some b
+  | _ => none
+
+/-- `issubclass(c, target)` in a hierarchy `[(class, bases)]` (fuel = the length of the table bounds the depth) -/
+def subclassF (hier : List (String × List String)) : Nat → String → String → Bool
+  | 0, c, t => c == t
+  | fuel + 1, c, t =>
+    c == t || (match hier.find? (·.1 == c) with
+      | none => false
+      | some (_, bases) => bases.any fun b => subclassF hier fuel b t)
+
+/-- `isinstance(x, C)` -/
+def VObj.isA (hier : List (String × List String)) (x : VObj) (c : String) : Bool := subclassF hier hier.length x.cls c
+
 end Py
